@@ -255,6 +255,7 @@ func VerifRegExp() {
 	vAssert(tt == DivToken || tt == DivEqToken, "first-token-not-div")
 	tt, d := l.RegExp()
 	vAssert(tt == RegExpToken && len(d) == n+4, "regexp-token")
+	vAssert(string(d) == string(src[:n+4]), "regexp-token-not-the-source-bytes")
 	tt, d = l.Next()
 	vAssert(tt == SemicolonToken, "token-after-regexp")
 	vReach("regexp")
